@@ -632,6 +632,38 @@ Proof.
 Qed.
 End C03BlocksExample.
 
+(* ... THE SAME WITH NO MODEL-SIDE HYPOTHESIS ABOUT THE COUNTS: each count is the rendering of an expression whose REFERENCE value
+   (Meaning.value_at over the EQU definitions among the items in front of the block) is the number of copies - that the
+   expander's ExpandAndEvaluate over the scanner's symbols gives this value is proved (C08Count.block_count: the scanner reads
+   exactly the definitions in front, r2_scan_table; pass-by-pass substitution with the definitions as written and one
+   substitution with the resolved table arrive at the same tokens; both evaluators agree on them) *)
+Theorem C03_programs_with_blocks_reference_partial :
+  forall spell, (forall id, spell id <> []) ->
+  forall cfg org (its : list Prog.item) bs last lead nm au code start inp toks rkN,
+    let es := blocks_doc bs last in
+    validate cfg = true ->
+    spell_ok spell (flat_map il_labels (instrs its) ++ map fst (equs its)) ->
+    renders_doc2 spell org its es -> shape2_ok es -> Forall (fun xk => (1 <= snd xk)%nat) es ->
+    ranked spell (equs its) rkN ->
+    bodies_known cfg its ->
+    meaning (mconf_of cfg) (mkProg its org None nm au []) = MOk code start ->
+    Forall words_ok bs -> counts_ref spell cfg its [] bs -> (length bs <= max_for_passes)%nat ->
+    lex_ascii inp = Some toks -> counts_modelled toks None = true ->
+    toks = repeat nl_tok lead ++ blocks_rest bs last ++ [tEOF] ->
+    compile_warrior cfg inp = COk code start (dmeta (mkPM [] [] []) es).
+Proof. exact blocks_program_ref. Qed.
+Print Assumptions C03_programs_with_blocks_reference_partial.
+
+Module C03BlocksRefExample.
+Import C03ForExample C03CounterExample C03BlocksExample.
+Example counts_by_the_reference : counts_ref spell cfg94 its [] bs.
+Proof.
+  cbn [counts_ref bs b_count b_n b_front]. split; [|split; [|exact I]].
+  - exists e_count. split; [reflexivity|]. split; [repeat constructor; cbn; lia|vm_compute; reflexivity].
+  - exists (NLit 2). split; [reflexivity|]. split; [repeat constructor; cbn; lia|vm_compute; reflexivity].
+Qed.
+End C03BlocksRefExample.
+
 (* missing from C03_full_statement: FOR blocks that are nested, carry block labels or have labelled lines in their bodies
    (for these the relation `unrolls` is a hypothesis, C03_programs_with_for_partial; for blocks in sequence without them it
    is constructed, C03_programs_with_blocks_partial), the identification of the written-out document with the rendering of
